@@ -90,6 +90,14 @@ pub struct RunRt {
     pub cur_op: [u32; MAX_TASKS],
     pub site_hits: Vec<(&'static str, u64)>,
     pub last_panic: Option<String>,
+    /// I/O fault injection: each call of jiff's `fault` seam at an enabled
+    /// site fails with probability `io_rate/16`, decided by `io_rng`.
+    pub io_rate: u8,
+    pub io_sites: Vec<String>,
+    pub io_rng: Rng,
+    /// (event seq, site, op) of every injected I/O error.
+    pub io_fired: Vec<(u32, &'static str, u32)>,
+    pub io_asked: u64,
 }
 
 impl RunRt {
@@ -121,6 +129,11 @@ impl RunRt {
             cur_op: [u32::MAX; MAX_TASKS],
             site_hits: vec![],
             last_panic: None,
+            io_rate: 0,
+            io_sites: vec![],
+            io_rng: Rng::new(0),
+            io_fired: vec![],
+            io_asked: 0,
         }
     }
 
@@ -155,6 +168,10 @@ impl RunRt {
         self.fp = Fnv::new();
         self.cur_op = [u32::MAX; MAX_TASKS];
         self.last_panic = None;
+        self.io_rate = 0;
+        self.io_sites.clear();
+        self.io_fired.clear();
+        self.io_asked = 0;
     }
 
     fn hit(&mut self, site: &'static str) {
@@ -432,6 +449,7 @@ pub fn init_once() {
             point: hook_point,
             blocked: hook_blocked,
             monotonic: hook_monotonic,
+            fault: hook_fault,
         });
         // Let shuttle install its (printing) panic hook first, then replace
         // it: the harness does its own failure persistence.
@@ -482,6 +500,35 @@ fn hook_blocked(site: &'static str) {
     });
     shuttle::thread::yield_now();
     check_abort();
+}
+
+fn hook_fault(site: &'static str) -> bool {
+    with_rt(|rt| {
+        if !rt.active || rt.io_rate == 0 {
+            return false;
+        }
+        if !rt.io_sites.iter().any(|s| s == site) {
+            return false;
+        }
+        rt.io_asked += 1;
+        if rt.io_rng.below(16) < rt.io_rate as u64 {
+            let seq = rt.push_event(What::Note("io.fault"));
+            let op = rt.cur_op[rt.cur_task.min(MAX_TASKS - 1)];
+            rt.io_fired.push((seq, site, op));
+            true
+        } else {
+            false
+        }
+    })
+}
+
+/// Arms I/O fault injection for the current execution.
+pub fn arm_io_faults(seed: u64, rate: u8, sites: &[String]) {
+    with_rt(|rt| {
+        rt.io_rng = Rng::new(seed);
+        rt.io_rate = rate;
+        rt.io_sites = sites.to_vec();
+    });
 }
 
 fn hook_monotonic() -> Option<Option<Instant>> {
